@@ -174,15 +174,14 @@ type Cluster struct {
 	protoStrict  bool
 	killProbes   int // close the connection instead of answering the next n CLUSTER NODES requests
 	probesServed int // CLUSTER NODES requests answered with the current generator
-	delayProbes  int // the next n CLUSTER NODES replies (computed on arrival) are written late
-	probeDelay   time.Duration
+	probeDelays  []time.Duration // the next CLUSTER NODES replies (computed on arrival) are written this late
 }
 
-// DelayProbes makes the nodes write the next n CLUSTER NODES replies d late (the text
-// is the one in force when the request arrived).
-func (cl *Cluster) DelayProbes(n int, d time.Duration) {
+// DelayProbes makes the nodes write the next len(d) CLUSTER NODES replies late, the
+// i-th of them by d[i] (the text is the one in force when the request arrived).
+func (cl *Cluster) DelayProbes(d ...time.Duration) {
 	cl.mu.Lock()
-	cl.delayProbes, cl.probeDelay = n, d
+	cl.probeDelays = append([]time.Duration(nil), d...)
 	cl.mu.Unlock()
 }
 
@@ -570,9 +569,9 @@ func (bc *BConn) dispatch(args [][]byte, raw []byte) {
 			if cl.nodesReply != nil {
 				cl.probesServed++
 			}
-			if cl.delayProbes > 0 {
-				cl.delayProbes--
-				a.Delay = cl.probeDelay
+			if len(cl.probeDelays) > 0 {
+				a.Delay = cl.probeDelays[0]
+				cl.probeDelays = cl.probeDelays[1:]
 			}
 			cl.mu.Unlock()
 		} else {
